@@ -44,6 +44,11 @@ pub struct DataSpec {
     /// cross-checks between probe replies that need no model
     pub cross: Option<Box<dyn Fn(&[(Vec<Bytes>, R)]) -> Vec<String>>>,
     pub db: usize,
+    /// commands with random outcomes (SPOP ...): evaluated at every state on a throw-away replay of the
+    /// history (reply judged, resulting dataset compared), never used as edges, so exploration stays deterministic
+    pub destructive_probes: Option<Box<dyn Fn(&Model) -> Vec<Vec<Bytes>>>>,
+    /// called at every reset (e.g. to re-arm forced skip-list levels)
+    pub on_reset: Option<fn()>,
 }
 
 pub struct DataWorld {
@@ -272,6 +277,9 @@ impl World for DataWorld {
             }
         }
         self.model = Model::new();
+        if let Some(f) = self.spec.on_reset {
+            f();
+        }
         if self.spec.uses_time {
             self.t0_ns = vtime::align_epoch().map_err(|_| "settle timeout while aligning epoch".to_string())?;
             self.t0_ms = vtime::wall_ms();
@@ -398,6 +406,37 @@ impl World for DataWorld {
                 let fp_after = self.fingerprint()?;
                 if fp_after != fp_before {
                     out.devs.push((format!("{}|READS-CHANGED-STATE", self.spec.prop), json!({"note": "fingerprint differs after the read-only probe batch", "before": fp_before_text, "after": self.fp_text()})));
+                }
+            }
+        }
+        if self.spec.destructive_probes.is_some() {
+            let list = (self.spec.destructive_probes.as_ref().unwrap())(&self.model);
+            for p in list.iter() {
+                self.reset()?;
+                for a in hist.iter() {
+                    let s = self.apply(*a)?;
+                    if !s.ok {
+                        return Err("replay divergence before a destructive probe".into());
+                    }
+                }
+                self.model.set_clock();
+                self.last_sig = self.model.sig_of(self.spec.db, p);
+                let (ok, obs, _shown, dev) = self.judged_call(p);
+                out.probes += 1;
+                out.outcome_hashes.push(fnv(obs.as_bytes()));
+                if let Some(d) = dev {
+                    out.devs.push(d);
+                }
+                if ok {
+                    out.devs.extend(self.dump_check()?);
+                }
+            }
+            // leave the world in the probed state's history again
+            self.reset()?;
+            for a in hist.iter() {
+                let s = self.apply(*a)?;
+                if !s.ok {
+                    return Err("replay divergence after destructive probes".into());
                 }
             }
         }
